@@ -185,7 +185,8 @@ class VerifyAttrs(object):
                 raise RuntimeError("Bad value for intent: " + attrs["intent"])
             if not is_ptr and intent != "in":
                 # Nonpointers can only be intent(in).
-                raise RuntimeError("{}: Only pointer arguments may have intent attribute".format(node.linenumber))
+                raise RuntimeError("{}: Only pointer arguments may have intent attribute".format(
+                    node.linenumber if node else "?"))
         meta["intent"] = intent
         return intent    
         
@@ -329,6 +330,8 @@ class VerifyAttrs(object):
         """
         if options is None:
             options = node.options
+        # node is None for the parameters of a function pointer argument.
+        linenumber = node.linenumber if node else "?"
         argname = arg.name
         attrs = arg.attrs
         meta = arg.metaattrs
@@ -359,7 +362,7 @@ class VerifyAttrs(object):
             ]:
                 raise RuntimeError(
                     "Illegal attribute '{}' for argument '{}' defined at line {}".format(
-                        attr, argname, node.linenumber
+                        attr, argname, linenumber
                     )
                 )
 
@@ -368,7 +371,7 @@ class VerifyAttrs(object):
             # Sanity check to make sure arg_typemap exists
             raise RuntimeError(
                 "check_arg_attrs: Missing arg.typemap on line {}: {}".format(
-                    node.linenumber, node.decl
+                    linenumber, node.decl if node else arg.gen_decl()
                 )
             )
 
@@ -440,7 +443,7 @@ class VerifyAttrs(object):
             if not temp:
                 raise RuntimeError(
                     "line {}: std::vector must have template argument: {}".format(
-                        node.linenumber, arg.gen_decl()
+                        linenumber, arg.gen_decl()
                     )
                 )
             arg_typemap = arg.template_arguments[0].typemap
@@ -459,6 +462,10 @@ class VerifyAttrs(object):
 
         # Flag node if any argument is assumed-rank.
         if arg.metaattrs["assumed-rank"]:
+            if node is None:
+                raise RuntimeError(
+                    "Assumed-rank is not supported for the parameters "
+                    "of a function pointer: {}".format(arg.gen_decl()))
             node._gen_fortran_generic = True
 
         if arg.is_function_pointer():
@@ -485,7 +492,7 @@ class VerifyAttrs(object):
                 declast.check_dimension(dim, metaattrs)
             except RuntimeError:
                 raise RuntimeError("Unable to parse dimension: {} at line {}"
-                                   .format(dim, node.linenumber))
+                                   .format(dim, node.linenumber if node else "?"))
 
 
 class GenFunctions(object):
